@@ -1,7 +1,7 @@
 """C18 — typed event (de)serialization: dispatch agreement, redaction detection, Raw<T> wrapper, serde skip/required symmetry."""
 import re
 from .. import dex as D, world as W, mir as M, strenum as S
-from . import util as U
+from . import util as U, panic_common as PC
 
 LEVEL = "other"
 EXPLANATION = (
@@ -257,12 +257,35 @@ def run(ctx):
     ctx.count("types_with_skippable_fields", len(skip))
     ctx.count("types_with_required_fields", len(req))
     ctx.floor("derived types with skippable fields", len(skip), 50)
+    # ---- nothing is read as a borrowed string -----------------------------------------------------------------------------------------------
+    ctx.rule("C18.no-borrowed-str", "no field or element is requested from the deserializer as `&str` / `&[u8]` (directly or inside Option): serde_json can lend a "
+                                    "string only when it contains no escape sequence, so `\"caf\\u00e9\"` or `\"a\\\"b\"` would fail where the same value "
+                                    "spelled without escapes succeeds (use Cow<str> with #[serde(borrow)] or String)")
+    n_reads, borrowed = 0, []
+    for fn in w.all_fns():
+        if "body" not in fn:
+            continue
+        for body in M.all_bodies(fn):
+            for _, c in M.calls(body):
+                nm = M.callee_name(c)
+                if re.search(r"(MapAccess|SeqAccess)(<'de>)?::next_(value|element|key|entry)(_seed)?$", nm) or nm.endswith("Deserialize<'de>>::deserialize"):
+                    n_reads += 1
+                    fa = c.get("fnargs") or []
+                    if any(re.search(r"(^|<|, )&('\w+ )?(str|\[u8\])(>|,|$)", a) for a in fa):
+                        borrowed.append((fn, c["line"], [a for a in fa if "str" in a or "[u8]" in a][:1]))
+    for fn, line, ty_ in borrowed[:6]:
+        ctx.violation("C18.no-borrowed-str", f"C18.no-borrowed-str:{PC.key_path(fn['path'])[:150]}", w.where(fn, line),
+                      f"reads a value as {ty_}: deserialization fails for input whose string contains a JSON escape (e.g. a state key `@caf\\u00e9:hs`), "
+                      f"although the same value without escapes is accepted")
+    if not borrowed:
+        ctx.ok("C18.no-borrowed-str", "C18.no-borrowed-str:scan", "", f"{n_reads} deserializer reads, none for a borrowed string")
+    ctx.floor("deserializer reads scanned", n_reads, 1200)
+
     # ---- what may be omitted is what a missing field is read as ------------------------------------------------------------------------
     ctx.rule("C18.defaults", "per derived Serialize/Deserialize pair: the values a `skip_serializing_if` predicate lets Serialize omit are, with multiplicity, the "
                              "values Deserialize fills in for a missing field (`is_default` <-> Default::default(), `x == 50` <-> a default function returning 50, ...): "
                              "otherwise a present value is silently replaced by another one on a round trip")
     from collections import Counter
-    from . import panic_common as PC
     dexv = D.Dex(w.lookup, adt_discr=w.adt_discr)
     memo = {}
 
